@@ -45,6 +45,7 @@ type Env struct {
 	Fresh    bool     `json:"fresh,omitempty"`     // execute in a fresh process
 	Conc     int      `json:"conc,omitempty"`      // build concurrently with this many other builds (seeded scheduler, isolating pool)
 	ConcSeed uint64   `json:"conc_seed,omitempty"`
+	Cwd      string   `json:"cwd,omitempty"`       // working directory of the process during the observed build, relative to the worker's own (the root is then named by its absolute path)
 	Repeat   int      `json:"repeat,omitempty"`    // soak: build and serialise this many times in a row in the same process, every result must equal the first
 }
 
